@@ -364,7 +364,7 @@ def rule_hook(E, R):
         # thread's buffer as a whole
         clr = [c for c in exprs(hr["body"], "MethodCall") if c["m"] == "clear" and any(is_param(c["recv"], hr, i_) for i_ in range(len(hr.get("params", []))))]
         fresh = any(s_["pat"].get("k") == "PBinding" and norm(strip(s_.get("init", {})).get("callee", "")) == "alloc::string::String::new" and
-                    local_name(tail(hr["body"])) == s_["pat"]["name"] for s_ in exprs(hr["body"], "SLet"))
+                    local_name(fn_result(hr)) == s_["pat"]["name"] for s_ in exprs(hr["body"], "SLet"))
         replaced = rec_if is not None and any(a_ for a_ in exprs(rec_if["then"], "Assign") if strip(a_["l"]).get("k") == "Unary" and
                                               _recorder_of(E, strip(a_["r"])) is hr)
         R.check(len(clr) == 1 or (fresh and replaced), rule, rname, "the buffer is cleared first (no stale message is kept)", where=hr["span"])
@@ -398,7 +398,7 @@ def run(F, R, tier):
         if not h:
             R.cannot("R19-hook", name, "anchor not found")
             continue
-        t = tail(h["body"])
+        t = fn_result(h)
         R.check(norm(t.get("callee", "")) == callee, "R19-hook", name, "C wrapper delegates to " + last_seg(callee), where=h["span"])
     R.not_decided += ["the check-then-set race on the hook-installed flag (two installs chain hooks; still conforming)",
                       "contents/format of the backtrace text beyond containing the payload",
